@@ -34,6 +34,9 @@ func staticEventNames(fns map[string]*ssa.Function) []string {
 	for _, p := range pseudoEvents {
 		add(p)
 	}
+	for k := 0; k < 16; k++ {
+		add(fmt.Sprintf("range.next#%d", k)) // a step of the k-th loop (ordinal as in loop#k)
+	}
 	for _, n := range extraNames {
 		add(n)
 	}
